@@ -2,7 +2,7 @@
    Statements only. The pause table is regenerated from executor.rs / unix.rs on every run
    (gen/GenPauseTable.v); Proofs/PauseCert.v re-establishes the certificate for it. *)
 From NextestModel Require Import Base.Str Model.Clocks Model.UnitTimers Model.AbsTimers
-  Proofs.Timers Proofs.UnitProps Proofs.DelayProps Proofs.PauseCert gen.GenPauseTable.
+  Proofs.Timers Proofs.UnitProps Proofs.DelayProps Proofs.PauseCert Proofs.StopContinue gen.GenPauseTable.
 From Coq Require Import MSets.MSetPositive.
 Open Scope N_scope.
 
@@ -83,6 +83,38 @@ Print Assumptions C12_info_once.
 Theorem C12_delay_loop_pauses : dcert pause_table = true.
 Proof. exact delay_cert. Qed.
 Print Assumptions C12_delay_loop_pauses.
+
+(* A stop / continue pair is invisible to a running unit: Stop, any amount of stopped time,
+   Continue bring it back to exactly the same state (the group sees SIGTSTP, SIGCONT; the stop is
+   acknowledged) -- so whatever follows, follows as it would have without the pause: same final
+   state, same later outputs, for every continuation of any length. *)
+Theorem C12_stop_continue_identity_running :
+  forall cfg s dt, ph s = PRunning -> owned_running s = true -> reaped s = false ->
+  urun pause_table cfg s [Req RStop; Tick dt; Req RContinue]
+  = Ok (s, [OSignal SigTstp; OAck; OSignal SigCont]).
+Proof. exact stop_continue_identity_running. Qed.
+Print Assumptions C12_stop_continue_identity_running.
+
+Theorem C12_same_results :
+  forall cfg s dt es, ph s = PRunning -> owned_running s = true -> reaped s = false ->
+  urun pause_table cfg s ([Req RStop; Tick dt; Req RContinue] ++ es) =
+  match urun pause_table cfg s es with
+  | Ok r => Ok (fst r, [OSignal SigTstp; OAck; OSignal SigCont] ++ snd r)
+  | Panicked => Panicked
+  end.
+Proof. exact stop_continue_same_results. Qed.
+Print Assumptions C12_same_results.
+
+(* In the terminating loop the same holds for every clock that loop owns (time taken, grace
+   period, waiting time); the slow-timeout interval, which that loop does not own, keeps counting
+   unless it was already paused. *)
+Theorem C12_stop_continue_identity_terminating :
+  forall cfg s x dt, ph s = PTerminating x -> owned_running s = true -> reaped s = false ->
+  urun pause_table cfg s [Req RStop; Tick dt; Req RContinue]
+  = Ok (with_ck s (set_isl (ck s) (slc_tick dt (k_isl (ck s)))),
+        [OSignal SigTstp; OAck; OSignal SigCont]).
+Proof. exact stop_continue_identity_terminating. Qed.
+Print Assumptions C12_stop_continue_identity_terminating.
 
 (* ---- witnesses *)
 (* F11, before the repair: a snapshot taken while paused grew with the clock *)
